@@ -18,6 +18,24 @@ PARSE_ONLY = ['control::lossy::buildinfo::Buildinfo::from_str', 'control::lossy:
 TOSTRING = {'aptsources::Repositories::from_str': '<Repositories as ToString>::to_string'}
 
 
+def string_value(e, n):
+    """a pass-through string value: one token, or a folded two-line value whose first line ends in a blank / has no trailing blank"""
+    shape = e.choose('vshape', 3)
+    a = alnum_tok(e, 'v', n)
+    if shape == 0: return a
+    b = alnum_tok(e, 'w', 1)
+    return Str(list(a.chars) + ([32] if shape == 1 else []) + [10] + list(b.chars))
+
+
+def folded(v):
+    """the text form of a logical value: continuation lines are indented by one space"""
+    out = []
+    for c in (v.chars if isinstance(v, Str) else [ord(x) for x in v]):
+        out.append(c)
+        if isinstance(c, int) and c == 10: out.append(32)
+    return out
+
+
 def type_path(entry):
     crate, callee, _ = ENTRIES[entry]
     return crate, re.match(r'^<(.*) as FromStr>::from_str$', callee).group(1), callee
@@ -29,7 +47,7 @@ class C20(Harness):
     crates = ('deb822', 'control', 'copyright', 'dep3', 'aptsources')
     fuel = 500000
     bounds = {'quick': {'token_chars': 2}, 'thorough': {'token_chars': 3}}
-    assumptions = ['documents are generated from the structs\' field tables (read from the current source): a base document accepted by the real reader (values for non-string fields found by native probing) plus one optional field (solver choice of presence; string fields symbolic), paragraphs of multi-paragraph types in both orders, an optional comment line',
+    assumptions = ['documents are generated from the structs\' field tables (read from the current source): a base document accepted by the real reader (values for non-string fields found by native probing) plus one optional field (solver choice of presence; string fields symbolic: one token, or a folded two-line value with / without a blank at the end of its first line), paragraphs of multi-paragraph types in both orders, an optional comment line',
                    'structural violations: the role-defining paragraph removed / duplicated, an extra paragraph that is of no kind, each mandatory field removed in turn',
                    'field-by-field comparison with the lossless reader covers String / Option<String> fields exactly; fields of other types are compared through print/reparse stability',
                    'types without a printer (Buildinfo, Removal) are decided for acceptance / rejection only; apt Release has neither FromStr nor Display and is covered by C16']
@@ -68,13 +86,13 @@ class C20(Harness):
         fam = case['fam']; sym = {}; expect = 'ok'; note = fam
         if fam == 'optional':
             if e.choose('present', 2):
-                v = alnum_tok(e, 'v', case['n']) if case['stringy'] else mkstr(case['good'])
+                v = string_value(e, case['n']) if case['stringy'] else mkstr(case['good'])
                 hit = [kv for kv in paras[case['para']] if kv[0] == case['field']]
                 if hit: hit[0][1] = v          # the base document already carries this field: replace its value
                 else: paras[case['para']].append([case['field'], v])
                 sym[(case['para'], case['field'])] = v
         elif fam == 'mandatory-value':
-            v = alnum_tok(e, 'v', case['n'])
+            v = string_value(e, case['n'])
             for kv in paras[case['para']]:
                 if kv[0] == case['field']: kv[1] = v
             sym[(case['para'], case['field'])] = v
@@ -108,7 +126,7 @@ class C20(Harness):
             if pi: chars.append(10)
             if comment_at == pi: chars += [ord(c) for c in '# note\n']
             for k, v in p:
-                chars += [ord(c) for c in k] + [58, 32] + (list(v.chars) if isinstance(v, Str) else [ord(c) for c in v]) + [10]
+                chars += [ord(c) for c in k] + [58, 32] + folded(v) + [10]
         return Str(chars), {'expect': expect, 'note': note, 'paras': [[[k, v if isinstance(v, Str) else mkstr(v)] for k, v in p] for p in paras], 'sym': sym}
 
     def run(self, e, case):
